@@ -288,6 +288,58 @@ Example C10_host_case_url_nonvacuous :
   end.
 Proof. cbv zeta. unfold name_text. vm_compute. repeat split; auto; discriminate. Qed.
 
+(* ... and for the WHOLE URL text "sch:rem" (Url.parse: strip, control-character check, scheme detection, then the above):
+   sch names a network scheme (no colon, lower-cased form without dot and not "localhost"), both texts are left alone by
+   strip and contain no control character *)
+Theorem C10_equiv_dot_segments_whole_url_partial :
+  forall enc lower_o idna_o ipv6_o int_o unq_o (sch sc : str) (dport : N) (A : str) (c : N) (a b : str) (mid : list str) (T : str),
+    scheme_text lower_o sch sc dport ->
+    memb 47 A = false -> memb 63 A = false -> memb 35 A = false ->
+    c <> 47 -> memb 63 (c :: a) = false -> memb 35 (c :: a) = false -> memb 63 b = false -> memb 35 b = false ->
+    memb 63 (join [47] mid) = false -> memb 35 (join [47] mid) = false ->
+    dropped mid -> mid <> [] -> Forall (fun p => memb 47 p = false) mid -> tail_ok T ->
+    let rem := [47; 47] ++ A ++ 47 :: ((c :: a) ++ 47 :: join [47] mid ++ 47 :: b) ++ T in
+    let rem' := [47; 47] ++ A ++ 47 :: ((c :: a) ++ 47 :: b) ++ T in
+    plain_text (sch ++ 58 :: rem) -> plain_text (sch ++ 58 :: rem') ->
+    same_url enc (parse enc lower_o idna_o ipv6_o int_o unq_o (sch ++ 58 :: rem))
+                 (parse enc lower_o idna_o ipv6_o int_o unq_o (sch ++ 58 :: rem')).
+Proof. exact parse_url_insert_segments. Qed.
+Print Assumptions C10_equiv_dot_segments_whole_url_partial.
+
+Theorem C10_equiv_host_case_whole_url_partial :
+  forall enc lower_o idna_o ipv6_o int_o unq_o (sch sc : str) (dport : N) (u : option str) (hn hn' pp R : str),
+    scheme_text lower_o sch sc dport ->
+    (forall x, u = Some x -> memb 64 x = false /\ memb 47 x = false /\ memb 63 x = false /\ memb 35 x = false) ->
+    name_text hn -> name_text hn' -> lower_ascii hn = lower_ascii hn' -> port_text pp ->
+    memb 47 hn = false -> memb 63 hn = false -> memb 35 hn = false -> memb 64 hn = false ->
+    memb 47 hn' = false -> memb 63 hn' = false -> memb 35 hn' = false -> memb 64 hn' = false ->
+    rest_ok R ->
+    let U := match u with Some x => x ++ [64] | None => [] end in
+    let rem := [47; 47] ++ (U ++ hn ++ pp) ++ R in
+    let rem' := [47; 47] ++ (U ++ hn' ++ pp) ++ R in
+    plain_text (sch ++ 58 :: rem) -> plain_text (sch ++ 58 :: rem') ->
+    same_url enc (parse enc lower_o idna_o ipv6_o int_o unq_o (sch ++ 58 :: rem))
+                 (parse enc lower_o idna_o ipv6_o int_o unq_o (sch ++ 58 :: rem')).
+Proof. exact parse_url_host_case. Qed.
+Print Assumptions C10_equiv_host_case_whole_url_partial.
+
+(* non-vacuity: "HTTP://u:p@EXAMPLE.Test:8080/a/./x/../b?q#f" and "HTTP://u:p@example.test:8080/a/b?q#f" satisfy the premises
+   (scheme text, plain texts) and parse to http://u:p@example.test:8080/a/b?q *)
+Example C10_whole_url_nonvacuous :
+  let sch := [72; 84; 84; 80] in
+  let run x := parse ex_enc (fun s => s) (fun _ => None) ex_ipv6 (fun _ _ => None) unescape x in
+  let s1 := sch ++ 58 :: [47; 47] ++ [117; 58; 112; 64; 69; 88; 65; 77; 80; 76; 69; 46; 84; 101; 115; 116; 58; 56; 48; 56; 48] ++
+            47 :: ([97] ++ 47 :: join [47] [s_dot; [120]; s_dotdot] ++ 47 :: [98]) ++ [63; 113; 35; 102] in
+  let s2 := sch ++ 58 :: [47; 47] ++ [117; 58; 112; 64; 101; 120; 97; 109; 112; 108; 101; 46; 116; 101; 115; 116; 58; 56; 48; 56; 48] ++
+            47 :: ([97] ++ 47 :: [98]) ++ [63; 113; 35; 102] in
+  scheme_text (fun s => s) sch [104; 116; 116; 112] 80 /\ plain_text s1 /\ plain_text s2 /\
+  match run s1, run s2 with
+  | Ok i, Ok i' => url_of ex_enc i = url_of ex_enc i' /\
+                   url_of ex_enc i = Ok [104; 116; 116; 112; 58; 47; 47; 117; 58; 112; 64; 101; 120; 97; 109; 112; 108; 101; 46; 116; 101; 115; 116; 58; 56; 48; 56; 48; 47; 97; 47; 98; 63; 113]
+  | _, _ => False
+  end.
+Proof. cbv zeta. unfold scheme_text, plain_text. vm_compute. repeat split; auto; discriminate. Qed.
+
 (* IPv4 notation: the normalized form of an IPv4 spelling is a function of the 32-bit value it denotes (one integer in
    decimal, 0-octal or 0x-hex, or four such parts) - spellings of the same address normalize alike *)
 Theorem C10_equiv_ipv4_partial :
